@@ -49,12 +49,36 @@ Keep == UNCHANGED <<done, upd, vetoer, lim>>
 
 SetOf(s) == {s[i] : i \in DOMAIN s}
 
+\* ---------------------------------------------------- registration attempts (C17) --
+Digits == {"0", "1", "2", "3", "4", "5", "6", "7", "8", "9"}
+IdxOK(x) == Len(x) = 2 /\ SubSeq(x, 1, 1) \in Digits /\ SubSeq(x, 2, 2) \in Digits
+MaskOK(m) == m \in 0..8191                       \* 0 = everything; otherwise only the 13 valid event bits
+WellFormed(e) == e.name # "" /\ IdxOK(e.idx) /\ MaskOK(e.mask) /\ e.stall = "none"
+AttKey(p) == "att:" \o p
+Malformed(p) == AttKey(p) \in DOMAIN done /\ ~done[AttKey(p)].wf
+
+TRegAttempt ==
+  /\ done' = Ext(done, AttKey(E.p), [wf |-> WellFormed(E), k |-> E.k])
+  /\ l' = l + 1 /\ UNCHANGED <<rvars, bad, stats, upd, vetoer, lim>>
+
+TRegWaited ==
+  IF E.ms > E.budget_ms + 500 THEN Reject("C17-registration-latency", <<E.ms>>) ELSE Skip
+
+\* created directories are private; with external connections disabled nothing is served
+TSocketCheck ==
+  IF E.disabled /\ (E.exists \/ E.dial_ok) THEN Reject("C17-socket-served-when-disabled", <<E.umask>>)
+  ELSE IF ~E.disabled /\ ~(E.exists /\ E.dial_ok) THEN Reject("C17-socket-not-served", <<E.umask>>)
+  ELSE IF ~E.disabled /\ (Len(E.modes) # 3 \/ \E i \in DOMAIN E.modes : E.modes[i] % 64 # 0)
+       THEN Reject("C17-socket-directory-not-private", <<E.umask, E.modes>>)
+  ELSE Skip
+
 \* ------------------------------------------------------------------ events --
 TBegin == /\ Reset /\ l' = l + 1 /\ stats' = Bump("scenarios") /\ UNCHANGED bad
           /\ lim' = [np |-> E.plugins, tmo |-> E.timeout_ms]
 
 TSyncRequest ==
-  IF Known(E.p) THEN Reject("C17-duplicate-registration", <<E.p>>)
+  IF Malformed(E.p) THEN Reject("C17-malformed-synchronized", <<E.p>>)
+  ELSE IF Known(E.p) THEN Reject("C17-duplicate-registration", <<E.p>>)
   ELSE WantSync(E.p, E.idx, SetOf(E.mask)) /\ Step("events") /\ Keep
 
 TSyncExclusive ==
@@ -68,7 +92,8 @@ TSnapshot ==
   ELSE Snapshot(swriter, SetOf(E.ids)) /\ Step("events") /\ Keep
 
 TRecvSync ==
-  IF swriter # E.p THEN (IF E.p \in dead THEN Skip   \* the handler of a dropped plugin ran late
+  IF Malformed(E.p) THEN Reject("C17-malformed-invoked", <<E.p, "Synchronize">>)
+  ELSE IF swriter # E.p THEN (IF E.p \in dead THEN Skip   \* the handler of a dropped plugin ran late
                          ELSE Reject("C08-sync-delivered-outside-sync", <<E.p>>))
   ELSE IF SetOf(E.ids) # snap[E.p] THEN Reject("C08-snapshot-delivery", <<E.p>>)
   ELSE Skip
@@ -144,7 +169,8 @@ LateOfDropped(p, r) == p \in dead /\ p \in DOMAIN cin /\ cin[p] = r
 
 TRecv ==
   LET lab == DeliverLabel(E.p) IN
-  IF lab = "" THEN Deliver(E.p) /\ Step("deliveries") /\ Keep
+  IF Malformed(E.p) THEN Reject("C17-malformed-invoked", <<E.p, E.event>>)
+  ELSE IF lab = "" THEN Deliver(E.p) /\ Step("deliveries") /\ Keep
   ELSE IF LateOfDropped(E.p, E.req) THEN Skip
   ELSE Reject(lab, <<E.p, E.req, E.event>>)
 
@@ -223,8 +249,11 @@ TNoStart ==
   ELSE IF ~E.noservice THEN Reject("C19-unstarted-stub-no-service", <<E.errtext>>)
   ELSE Skip
 
+NotActivated == {k \in DOMAIN done : Len(k) > 4 /\ SubSeq(k, 1, 4) = "att:" /\ done[k].wf
+                     /\ LET p == SubSeq(k, 5, Len(k)) IN ~(Known(p) /\ pst[p] = "active")}
 TEnd ==
-  IF Len(E.stuck) > 0 THEN Reject("C08-registration-stuck", <<E.stuck>>)
+  IF NotActivated # {} THEN Reject("C17-wellformed-not-activated", <<NotActivated>>)
+  ELSE IF Len(E.stuck) > 0 THEN Reject("C08-registration-stuck", <<E.stuck>>)
   ELSE IF readers # {} \/ rlock # "" \/ swriter # "" THEN Reject("C08-not-quiescent", <<readers, rlock, swriter>>)
   ELSE Skip
 
@@ -256,6 +285,9 @@ TraceNext ==
        [] E.ev = "upd.call"         -> TUpdCall
        [] E.ev = "upd.ret"          -> TUpdRet
        [] E.ev = "nostart"          -> TNoStart
+       [] E.ev = "reg.attempt"      -> TRegAttempt
+       [] E.ev = "reg.waited"       -> TRegWaited
+       [] E.ev = "socket.check"     -> TSocketCheck
        [] E.ev = "End"              -> TEnd
        [] OTHER                     -> Skip   \* call, started, leaving, start.failed: no specification step
 
